@@ -87,7 +87,7 @@ def check(prop, tier, seed, P):
     t0 = time.time()
     types = public_types()
     feature_sets = [["thread-safe"]]
-    if tier == "thorough":
+    if True:   # both tiers: the interaction with the optional value-type features is part of the property
         feature_sets.append(["thread-safe", "hashable-value", "with-json", "with-chrono", "with-time", "with-uuid", "with-rust_decimal", "with-bigdecimal", "postgres-array", "postgres-interval", "with-ipnetwork", "with-mac_address"])
     violations, undecided, total, unnameable_all, cmds = [], [], 0, {}, []
     for fs in feature_sets:
